@@ -264,9 +264,13 @@ def run_shard(ctx):
                         acc.count('skipped_non_boolean_context')
                         continue
                     etext = text
+                    if (idx + len(c)) % 5 == 2:
+                        # keywords are case-insensitive: the operator words in lower / mixed case (operands untouched)
+                        etext = re.sub(r'\b(AND|OR|NOT|IN|BETWEEN|LIKE|IS|NULL)\b', lambda m_: m_.group(1).lower() if idx % 2 else m_.group(1).capitalize(), text)
+                        acc.count('keyword_case_variants')
                     if (idx + len(c)) % 4 == 1:
                         # the same token sequence laid out over several lines / with tabs and comments between the tokens
-                        etext = ''.join(r.choice(BLANKS) if ch == ' ' else ch for ch in text)
+                        etext = ''.join(r.choice(BLANKS) if ch == ' ' else ch for ch in etext)
                         acc.count('relayouted')
                     sql = CONTEXTS[c].format(e=etext)
                     acc.ev()
@@ -305,7 +309,7 @@ def run_shard(ctx):
                             # stand between IS and NOT (and only those; a gap of white space alone is left as it is) are replaced by a blank?
                             sig['cause'] = '-'
                             if etext != text:
-                                healed = re.sub(r'\bIS\s*(?:/\*(?:(?!\*/).)*\*/|--[^\n]*\n)(?:\s|/\*(?:(?!\*/).)*\*/|--[^\n]*\n)*NOT\b', 'IS NOT', etext, flags=re.S)
+                                healed = re.sub(r'(?i)\bIS\s*(?:/\*(?:(?!\*/).)*\*/|--[^\n]*\n)(?:\s|/\*(?:(?!\*/).)*\*/|--[^\n]*\n)*NOT\b', 'IS NOT', etext, flags=re.S)
                                 if healed != etext:
                                     try:
                                         nodes2 = list(find_expr(parse_sql(CONTEXTS[c].format(e=healed), dialect), c))
